@@ -284,6 +284,9 @@ func (w *World) userStopCtx(ui, mode int) {
 		}
 		// the shutdown goes on regardless: C06 monitors its completion
 		w.stopRequested = true
+		if before == stRunning {
+			w.stopCtxErrSeen = true
+		}
 	}
 }
 
